@@ -403,6 +403,11 @@ def main():
     for cfg in (SEM, LIM):
         out = OUTDIR / cfg["out"]
         try:
+            try:
+                import guard
+                guard.check("_backends/_asyncio.py", mod, [cfg["cls"]])
+            except guard.GuardError as e:
+                raise Refuse(str(e))
             defs, getters, stats, atoms = translate(mod, cfg)
         except Refuse as e:
             msg = str(e).replace('"', "'")
